@@ -45,7 +45,7 @@ ASSUMPTIONS = [
   "float32 floor: Jaref/Ma are accumulated from the start point of the solve, so the round-off terms use max(|qacc|, "
   "|warmstart|, |qacc_smooth|) (a hostile warmstart of 1e4 leaves 1e4*eps32 in jar for the whole solve)",
 ]
-BUDGET = {"quick": 140, "thorough": 1500}
+BUDGET = {"quick": 300, "thorough": 1500}
 
 K_TOL = {"Newton": 30.0, "CG": 1000.0}
 C_FORCE = 64.0  # float32 allowance (in eps32 * magnitude of the terms summed) for efc.force
